@@ -20,7 +20,14 @@
     * a `stale` flag (the peer has closed its end: the next use fails with a disconnect-class error while
       sending) and a `pending` flag (http.client still holds an unread response and refuses the next
       `getresponse` with `ResponseNotReady`);
-    * the peer consumes one behaviour of the call's script for every request it actually reads.
+    * the peer consumes one behaviour of the call's script for every request it actually reads;
+    * a reply may be delivered IN PIECES (`Beh.scripted`): informational 1xx responses first, pauses after the status
+      line, after the header block, inside the body and before surplus bytes, each pause lasting until the client has
+      acted (its call returned, or it blocks reading).  http.client skips `100 Continue`, hands every other 1xx to the
+      caller as a bodiless response, blocks through pauses inside a head or inside the announced length; a response
+      read to its announced length is closed (read-ahead discarded); a body that ends before the announced length
+      because the peer closes raises `IncompleteRead` out of `response.read()` — in `single_request` that call sits
+      OUTSIDE the close-on-error handler, the dead connection stays cached (found out and replaced by the next call).
 -/
 import JRV.Model.Json
 
@@ -45,12 +52,64 @@ inductive Body where
   | own        -- a well-formed JSON-RPC result for the token of this very call
   | foreign    -- a well-formed JSON-RPC result for another token
   | errObj     -- a JSON-RPC error object
+  | httpReply  -- a complete HTTP 200 reply carrying a JSON-RPC result for another token
 deriving Repr, DecidableEq
 
 /-- The two places where harmless variants of `single_request` differ (read from the source by the extractor). -/
 structure Lib where
   drain : Bool        -- `if response.getheader("content-length", 0): response.read()`
   closeNoLen : Bool   -- `else: self.close()` (absent in the code as it stands)
+deriving Repr, DecidableEq
+
+/-- An informational response (no body, no length header: RFC 9110) sent before the final one.  `cut`: the peer pauses
+    after it until the client has acted. -/
+inductive Info where
+  | continue100 (cut : Bool)            -- `100 Continue`: skipped by http.client
+  | other (early : Bool) (cut : Bool)   -- `103 Early Hints` / `102 Processing`: http.client returns it as THE response
+deriving Repr, DecidableEq
+
+def infoCode (early : Bool) : Nat := if early then 103 else 102
+
+/-- The status the client is shown when informational responses precede the final one: that of the first which is not
+    `100 Continue`, if any. -/
+def firstOther : List Info → Option Nat
+  | [] => none
+  | .continue100 _ :: r => firstOther r
+  | .other early _ :: _ => some (infoCode early)
+
+/-- The bytes sent after the header block, against the announced Content-Length. -/
+inductive Delta where
+  | exact
+  | long (late : Bool)   -- surplus bytes behind the body; `late`: after a pause, otherwise in the segment of the last body byte
+  | short                -- fewer bytes than announced, then the peer closes the connection
+deriving Repr, DecidableEq
+
+/-- The final response of a reply delivered in pieces. -/
+inductive Final where
+  | ok (d : Delta)                                                -- 200 + own result, Content-Length announced
+  | status (code : ErrCode) (body : Body) (len : Option Delta)    -- `none`: no length header, the peer closes after the body
+  | bodiless (notModified : Bool) (len : Bool)                    -- 204/304, `Content-Length: 0` or no length header
+deriving Repr, DecidableEq
+
+/-- Where the peer pauses inside the final response: after the status line, after the header block (before the
+    first body byte), in the middle of the body. -/
+structure Cuts where
+  line : Bool
+  head : Bool
+  body : Bool
+deriving Repr, DecidableEq
+
+/-- Whether the peer closes the connection after the final response. -/
+def Final.closes : Final → Bool
+  | .ok .short => true
+  | .status _ _ none => true
+  | .status _ _ (some .short) => true
+  | _ => false
+
+structure Reply where
+  infos : List Info
+  final : Final
+  cuts : Cuts
 deriving Repr, DecidableEq
 
 /-- The fault alphabet of the scripted peer. -/
@@ -75,6 +134,7 @@ inductive Beh where
                            -- non-200, body longer than the announced Content-Length, all in one segment
   | statusLongLate (code : ErrCode) (reply : Option Nat)
                            -- the same, the surplus bytes arrive late; optionally followed by a complete reply (token)
+  | scripted (r : Reply)   -- a reply delivered in pieces (every reply above without late bytes is one piece)
 deriving Repr, DecidableEq
 
 /-- The status of a bodiless reply. -/
@@ -112,6 +172,38 @@ deriving Repr, DecidableEq
 def afterLength (lib : Lib) (c : Conn) : Cache :=
   if lib.drain then some c else some { c with pending := true }
 
+/-- Surplus bytes sent after a pause stay unread on the connection; in the segment of the last body byte they are read
+    ahead and discarded with the response. -/
+def surplusLeft (late : Bool) (c : Conn) : Conn := if late then { c with inbound := [.junk] } else c
+
+/-- A reply delivered in pieces on a connection with nothing unread.  The pauses inside the final response (`r.cuts`,
+    the `cut` of a `100 Continue`) do not appear: the client blocks through them (validated on real sockets) — what
+    matters is what is sent after the client has finished with the exchange. -/
+def deliver (lib : Lib) (c : Conn) (tok : Nat) (r : Reply) : Att :=
+  match firstOther r.infos with
+  | some code =>
+    -- a bodiless response without a length header: not drained, left unread (whatever follows it on the wire is
+    -- dropped with the connection when the next use fails); when the peer closes after the final response the
+    -- dead socket is noticed first (while sending) and the request is re-sent on a new connection (dead AND unread:
+    -- which is noticed first is kernel timing, as for a bodiless status followed by `down`; the harness does not
+    -- generate it, both outcomes are an exception or the call's own result and both recover)
+    .done (.transportError code) (if lib.closeNoLen then none else some { c with pending := true, stale := r.final.closes })
+  | none =>
+    match r.final with
+    | .ok .exact => .done (.result tok) (some c)
+    | .ok (.long late) => .done (.result tok) (some (surplusLeft late c))
+    | .ok .short => .done (.other "decode") (some { c with stale := true })            -- as `truncated`
+    | .status code _ none => .done (.transportError code.n) none                       -- will_close
+    | .status code _ (some .exact) => .done (.transportError code.n) (afterLength lib c)
+    | .status code _ (some (.long late)) => .done (.transportError code.n) ((afterLength lib c).map (surplusLeft late))
+    | .status code _ (some .short) =>
+      -- draining hits the end of the stream: IncompleteRead, raised outside the close-on-error handler
+      if lib.drain then .done (.other "incomplete") (some { c with stale := true })
+      else .done (.transportError code.n) (some { c with pending := true, stale := true })
+    | .bodiless nm true => .done (.transportError (bodilessCode nm)) (afterLength lib c)
+    | .bodiless nm false =>
+      .done (.transportError (bodilessCode nm)) (if lib.closeNoLen then none else some { c with pending := true })
+
 /-- One request/response exchange on a usable connection `c`: the peer reads the request carrying
     `tok` and applies behaviour `b`; the client then processes what it receives. -/
 def exchange (lib : Lib) (c : Conn) (tok : Nat) (b : Beh) : Att :=
@@ -146,6 +238,7 @@ def exchange (lib : Lib) (c : Conn) (tok : Nat) (b : Beh) : Att :=
     | .statusLongLate code r =>
       .done (.transportError code.n)
         ((afterLength lib c).map fun c' => { c' with inbound := .junk :: (r.map Item.reply).toList })
+    | .scripted r => deliver lib c tok r
 
 /-- `single_request` on the cached connection (or a new one). Returns the attempt's result and the
     behaviours the peer has not consumed. -/
@@ -190,10 +283,16 @@ def Beh.framed : Beh → Bool
   | .okThenLate _ => false
   | _ => true
 
+/-- A healthy exchange delivered in pieces: 200 + own result of the announced length, possibly after `100 Continue`
+    responses, with pauses anywhere. -/
+def Reply.healthy (r : Reply) : Bool :=
+  (firstOther r.infos).isNone && (match r.final with | .ok .exact => true | _ => false)
+
 /-- Healthy exchanges. -/
 def Beh.healthy : Beh → Bool
   | .okKeep => true
   | .okClose => true
+  | .scripted r => r.healthy
   | _ => false
 
 /-- Connection states in which no foreign reply can be taken for an answer: nothing unread, or unread bytes that
